@@ -17,12 +17,35 @@ theorem StepsC.trans {p0 c0 T1 ts1 p1 T2 ts2 p2}
 theorem StepsC.cast {p0 c0 T ts p T' ts'} (h : StepsC p0 c0 T ts p) (hT : T = T') (hts : ts = ts') :
     StepsC p0 c0 T' ts' p := by subst hT; subst hts; exact h
 
+/-- the text ends in a digit -/
+def lastDigit (T : List GCh) : Bool :=
+  match T.getLast? with
+  | some (.digit _) => true
+  | _ => false
+
+/-- what the lexer may still hold behind the text `T` when it held `p0` in front of it: `p0` itself if nothing was
+    read, otherwise something only if `T` ends in a digit -/
+def PendOK (p0 : Pend) (T : List GCh) (p : Pend) : Prop := (T = [] ∧ p = p0) ∨ p = .none ∨ lastDigit T = true
+
 /-- the text `T` reads, from the start of a lexeme, as the tokens `toks` (the last one possibly still pending) -/
 def Good (T : List GCh) (toks : List Tok) : Prop :=
-  ∃ ts p, StepsC .none false T ts p ∧ Complete p ∧ ts ++ ftoks p = toks ∧ (cmtAfter false T = true → p = .none)
+  ∃ ts p, StepsC .none false T ts p ∧ Complete p ∧ ts ++ ftoks p = toks ∧ (cmtAfter false T = true → p = .none) ∧
+    PendOK .none T p
+
+theorem lastDigit_append {A B : List GCh} (h : lastDigit B = true) : lastDigit (A ++ B) = true := by
+  cases B with
+  | nil => simp [lastDigit] at h
+  | cons b bs =>
+    have hg : (A ++ b :: bs).getLast? = (b :: bs).getLast? := by
+      rw [List.getLast?_append]
+      cases hh : (b :: bs).getLast? with
+      | none => simp at hh
+      | some x => rfl
+    unfold lastDigit at h ⊢
+    rw [hg]; exact h
 
 theorem Good.lex {T toks} (h : Good T toks) : lex T = some toks := by
-  obtain ⟨ts, p, hs, hp, ht, hc⟩ := h
+  obtain ⟨ts, p, hs, hp, ht, hc, _⟩ := h
   rw [← ht]; exact lex_of_steps hs hp hc
 
 /-! ## link chains -/
@@ -108,7 +131,7 @@ theorem paren_rest {s t e : List GCh} {toks : List Tok} (hg : Good t toks)
     (hs : isSep false s = true) (hsc : cmtAfter false s = false) (htc : cmtAfter false t = false)
     (he : isSep false e = true) :
     StepsC .none false (s ++ t ++ .rp :: e) (toks ++ [.rp]) .none := by
-  obtain ⟨ts, p, hst, hp, htk, _⟩ := hg
+  obtain ⟨ts, p, hst, hp, htk, _, _⟩ := hg
   have h1 : StepsC .none false s [] .none := sep_steps hs
   have h2 : StepsC .none (cmtAfter false s) t ts p := by rw [hsc]; exact hst
   have h12 := StepsC.trans h1 h2
@@ -150,7 +173,7 @@ theorem link_good {ws : List Wrap} {t : List GCh} {toks : List Tok} (hg : Good t
       have hlp : StepsC .none false [.lp] [.lp] .none := step_lp (p := .none) trivial
       have hc0 : cmtAfter false [GCh.lp] = false := rfl
       have hall := StepsC.trans hlp (by rw [hc0]; exact hR)
-      refine ⟨⟨.lp :: (linkToks ws toks ++ [.rp]), .none, ?_, trivial, by simp [ftoks], fun _ => rfl⟩, ?_⟩
+      refine ⟨⟨.lp :: (linkToks ws toks ++ [.rp]), .none, ?_, trivial, by simp [ftoks], fun _ => rfl, Or.inr (Or.inl rfl)⟩, ?_⟩
       · exact hall.cast (by simp) (by simp)
       · intro _
         exact ⟨_, _, rfl, rfl, hR⟩
@@ -209,6 +232,33 @@ def unionOpr (cs : List GCh) : Bool :=
   | .colon :: b => isSep false a && !cmtAfter false a && isSep false b && !cmtAfter false b
   | _ => false
 
+/-- the strings of a padding hold no comment start (comments are `CommentNode`s) -/
+def cleanPad (p : Pad) : Bool :=
+  p.all fun
+    | .str cs => !cs.contains .cmt
+    | .cmt _ => true
+
+/-- what the operator padding of a node that exists must look like -/
+def oprOK (o : BOp) (cs : List GCh) : Bool :=
+  match o with
+  | .inter => isSep false cs && !cmtAfter false cs
+  | .union => unionOpr cs
+
+/-- the operator padding of an intersection after `_update_node`: separators and comments, nothing hidden that
+    `_update_node` would take for a ":" -/
+def interLike (p : Pad) : Bool :=
+  isSep false p.format && !cmtAfter false p.format && !(strChars p).contains .colon
+
+/-- the operator padding after `_update_node`, by operator -/
+def oprOKp (o : BOp) (p : Pad) : Bool :=
+  match o with
+  | .inter => interLike p
+  | .union => unionOpr p.format
+
+/-- the operator padding before `_update_node`: that of an intersection or that of a union, *whatever the node's
+    operator is* (`hs.operator = …` changes the operator and leaves the text to `_update_node`) -/
+def oprPre (p : Pad) : Bool := interLike p || unionOpr p.format
+
 def isUnion : HS → Bool
   | .bin .union .. => true
   | _ => false
@@ -216,8 +266,10 @@ def isUnion : HS → Bool
 /-- `gen true` is the state `HalfSpace._update_values` establishes (`ready`): every HalfSpace has its node; keys
     are in the created order; leaf tokens spell the divider; paddings hold only separators and the operator's own
     symbol; links carry parentheses where MCNP's precedence needs them; a left operand does not end inside a
-    comment; two numerals are never adjacent.  `gen false` (`linked`) is the same without the last clause: the
-    state after `_ensure_has_nodes`, before `_update_node` has put a blank where one is needed. -/
+    comment; two numerals are never adjacent (an intersection has a non-empty padding, or a parenthesised operand, or
+    its left text does not end in a digit).  `gen false` (`linked`) is the same without the last clause: the
+    state after `_ensure_has_nodes`, before `_update_node` has put a blank where one is needed or rewritten the
+    operator symbol after `hs.operator = …`. -/
 def gen (b : Bool) : HS → Bool
   | .unit d s false (some v) => tokVal v.tok == some (!s, d) && isSep false (optFmt v.pad)
   | .unit _ _ _ _ => false
@@ -233,12 +285,13 @@ def gen (b : Bool) : HS → Bool
       gen b l && gen b r && orderOK g [.left, .operator, .right] &&
       chainOK g.lchain l.fmt && chainOK g.rchain r.fmt &&
       !cmtAfter false (wrapFmt g.lchain l.fmt) &&
+      (cleanPad g.opr && cond b (oprOKp o g.opr) (oprPre g.opr)) &&
       (match o with
         | .inter =>
-            isSep false g.opr.format && !cmtAfter false g.opr.format &&
-            (!b || !g.opr.format.isEmpty || headParens g.lchain || headParens g.rchain) &&
+            (!b || !g.opr.format.isEmpty || headParens g.lchain || headParens g.rchain ||
+              !lastDigit (wrapFmt g.lchain l.fmt)) &&
             (!isUnion l || headParens g.lchain) && (!isUnion r || headParens g.rchain)
-        | .union => unionOpr g.opr.format) &&
+        | .union => true) &&
       isSep false (optFmt g.ep)
   | .bin _ _ _ none => false
 
@@ -255,12 +308,6 @@ def chainPads : List Wrap → Bool
         | .bare => true
         | .parens s e => isSep false s && !cmtAfter false s && isSep false e
         | .bad => false) && chainPads ws
-
-/-- what the operator padding of a node that exists must look like -/
-def oprOK (o : BOp) (cs : List GCh) : Bool :=
-  match o with
-  | .inter => isSep false cs && !cmtAfter false cs
-  | .union => unionOpr cs
 
 /-- **HS.WF**: well-formedness of a HalfSpace tree *before* `_update_values`: a cell leaf occurs only directly
     under a complement; a HalfSpace may or may not have its syntax node yet; where a node exists (it was read, or
@@ -291,6 +338,6 @@ def wf : HS → Bool
       (match gn with
         | none => true
         | some g => orderOK g [.left, .operator, .right] && chainPads g.lchain && chainPads g.rchain &&
-            oprOK o g.opr.format && isSep false (optFmt g.ep))
+            (cleanPad g.opr && oprPre g.opr) && isSep false (optFmt g.ep))
 
 end MontePyVerif.C02
